@@ -7,6 +7,7 @@
 (*   const  [name, e]   var [name, e]  defseg [name, start, hasPc, pc]                     *)
 (*   useseg [name, hasBody, body]      if [e, then, hasElse, else] loop  [e, sid, body]    *)
 (*   macrodef [name, params, body]     macrocall [name, args]                              *)
+(*   import [file, sid, hasAs, as, hasParams, params]   (.import * [as m] from "file" [{params}]) *)
 (* Expressions are Expr trees; identifier nodes carry name (a key unique per spelling)     *)
 (* and path (sequence of identifiers, possibly starting with "super").                     *)
 (*                                                                                        *)
@@ -77,6 +78,11 @@ EnvFor(t, tab, scope) ==
   [nm \in {i.name : i \in ids} |-> LET i == CHOOSE i \in ids : i.name = nm IN tab[Lookup(tab, scope, i.path).key]]
 Unresolved(t, tab, scope) == {i \in Ids(t) : ~Resolvable(tab, scope, i)}
 
+(* string helpers (TLC evaluates Len/SubSeq on strings) *)
+HasPrefix(k, p) == Len(k) > Len(p) /\ SubSeq(k, 1, Len(p)) = p
+Suffix(k, p) == SubSeq(k, Len(p) + 1, Len(k))
+SpecialFirst(k, p) == LET c == SubSeq(k, Len(p) + 1, Len(p) + 1) IN c = "$" \/ c = "-" \/ c = "+"
+
 (* ---------------------------------------------------------------- walk state *)
 (* seg: [init, toff, pc, mem]   mem: function written address -> byte             *)
 NewSeg(init, target) == [init |-> init, toff |-> target - init, pc |-> init, mem |-> <<>>]
@@ -85,7 +91,7 @@ HasSeg(st) == st.cur # "" /\ st.cur \in DOMAIN st.segs
 
 InitState(tab, segs, cur) ==
   [segs |-> segs, cur |-> cur, scope |-> <<>>, tab |-> tab, defined |-> {}, errs |-> {}, undef |-> {},
-   macroN |-> 0, unspec |-> FALSE, srcmap |-> <<>>, labels |-> {}, vars |-> {}]
+   macroN |-> 0, unspec |-> FALSE, srcmap |-> <<>>, labels |-> {}, vars |-> {}, aliases |-> {}]
 
 Err(st, e) == [st EXCEPT !.errs = @ \cup {e}]
 Unspec(st) == [st EXCEPT !.unspec = TRUE]
@@ -239,10 +245,10 @@ WalkStmt(s, st, sigma, frozen, af, md) ==
     [] s.k = "macrodef" ->
         Define(st, s.name, [k |-> "macro"], FALSE)
     [] s.k = "macrocall" ->
-        LET r == Lookup(md, st.scope, <<s.name>>) IN
+        LET r == Lookup(md.md, st.scope, <<s.name>>) IN
         IF ~r.found THEN (IF frozen THEN Err(st, [k |-> "unknownmacro", sid |-> s.sid])
                           ELSE [st EXCEPT !.undef = @ \cup {[scope |-> st.scope, name |-> s.name, sid |-> s.sid]}])
-        ELSE LET d == md[r.key] IN
+        ELSE LET d == md.md[r.key] IN
           IF Len(d.params) # Len(s.args) THEN Err(st, [k |-> "arity", sid |-> s.sid])
           ELSE LET mscope == "$macro_" \o ToString(st.macroN)
                    s0 == Push([st EXCEPT !.macroN = @ + 1], mscope)
@@ -255,6 +261,23 @@ WalkStmt(s, st, sigma, frozen, af, md) ==
                           ELSE IF v.k = "undef" THEN Unspec(p)
                           ELSE Define(p, d.params[i], v, FALSE)
                IN Pop(WalkSeq(d.body, B[Len(d.params)], sigma, frozen, af, md))
+    [] s.k = "import" ->
+        IF s.file \notin DOMAIN md.files THEN st
+        ELSE LET s0 == Push(st, s.sid)
+                 s1 == IF s.hasParams THEN WalkSeq(s.params, BlockStart(s0), sigma, frozen, af, md) ELSE s0
+                 s2 == WalkSeq(md.files[s.file], s1, sigma, frozen, af, md)
+                 s3 == Pop(IF s.hasParams THEN BlockEnd(s2) ELSE s2)
+                 (* export: every non-special child of the import scope becomes visible in the importing scope
+                    (or in the scope named by `as'), together with everything below it *)
+                 from == Key(st.scope, <<s.sid>>) \o "."
+                 to   == IF s.hasAs THEN Key(st.scope, <<s.as>>) \o "." ELSE (IF st.scope = <<>> THEN "" ELSE Key(st.scope, <<>>) \o ".")
+                 exported == {k \in DOMAIN s3.tab : HasPrefix(k, from) /\ ~SpecialFirst(k, from)}
+                 alias == [k2 \in {to \o Suffix(k, from) : k \in exported} |->
+                             s3.tab[CHOOSE k \in exported : to \o Suffix(k, from) = k2]]
+                 clash == \E k2 \in DOMAIN alias : k2 \in DOMAIN s3.tab /\ k2 \notin s3.aliases /\ s3.tab[k2] # alias[k2]
+             IN IF clash THEN Err(s3, [k |-> "importclash", sid |-> s.sid])
+                ELSE [s3 EXCEPT !.tab = alias @@ @, !.aliases = @ \cup DOMAIN alias,
+                                !.labels = @ \cup {to \o Suffix(k, from) : k \in {x \in exported : x \in s3.labels}}]
     [] OTHER -> st
 
 (* symbols the pass loop registers for every segment after each pass *)
@@ -277,7 +300,13 @@ DefinesSegments(prog) == \E i \in 1..Len(prog) : prog[i].k = "defseg"
 Ref(prog, sigma, defaultPc, af) ==
   LET segs0 == IF DefinesSegments(prog) THEN <<>> ELSE ("default" :> NewSeg(defaultPc, defaultPc))
       cur0  == IF DefinesSegments(prog) THEN "" ELSE "default"
-      r == WalkSeq(prog, InitState(<<>>, segs0, cur0), sigma, TRUE, af, MacroDefs(prog, <<>>)) IN
+      r == WalkSeq(prog, InitState(<<>>, segs0, cur0), sigma, TRUE, af, [md |-> MacroDefs(prog, <<>>), files |-> <<>>]) IN
+  [r EXCEPT !.tab = SegSyms(r.segs) @@ @]
+(* the same for a multi-file project: files maps a file name to its statements *)
+RefF(prog, files, sigma, defaultPc, af) ==
+  LET segs0 == IF DefinesSegments(prog) THEN <<>> ELSE ("default" :> NewSeg(defaultPc, defaultPc))
+      cur0  == IF DefinesSegments(prog) THEN "" ELSE "default"
+      r == WalkSeq(prog, InitState(<<>>, segs0, cur0), sigma, TRUE, af, [md |-> MacroDefs(prog, <<>>), files |-> files]) IN
   [r EXCEPT !.tab = SegSyms(r.segs) @@ @]
 
 (* ---------------------------------------------------------------- the pass loop *)
@@ -290,7 +319,7 @@ MInit == [tab |-> <<>>, segs |-> <<>>, cur0 |-> "", undef |-> {}, prevUndef |-> 
 (* one pass: walk in place, then (re)register the segment symbols through the same insertion rule *)
 RunPass(prog, m, af) ==
   LET st0 == [InitState(m.tab, [n \in DOMAIN m.segs |-> ResetSeg(m.segs[n])], m.cur0) EXCEPT !.undef = m.undef, !.vars = m.vars]
-      r  == WalkSeq(prog, st0, <<>>, FALSE, af, MacroDefs(prog, <<>>))
+      r  == WalkSeq(prog, st0, <<>>, FALSE, af, [md |-> MacroDefs(prog, <<>>), files |-> <<>>])
       ss == SegSyms(r.segs)
       K  == DOMAIN ss
       Reg[S \in SUBSET K] ==          \* insertion of the segment symbols, one at a time
